@@ -46,6 +46,10 @@ CORPUS = [
     ("tsql", "SELECT TOP 1 [a] FROM t"),
     # statements whose parser builds a keyword list token by token and falls back to Command
     ("", "GRANT SELECT ON t TO u"),
+    # the generator keeps `- -a` from becoming the comment marker `--a`
+    ("", "SELECT - -a"),
+    # a cast to a temporal type takes an optional FORMAT / `,` <format string> tail
+    ("", "SELECT CAST(a AS DATE)"),
 ]
 
 
